@@ -65,11 +65,14 @@ package parser
 //@ pred visitorOK(v *PacketDslVisitorImpl) := v != nil && model.modelOK(v.BinModel) && model.metaWF(v.BinModel)
 
 //@ pred attrOK(a model.FieldAttribute) := model.attrKind(a) && (typeis(a, *model.LengthFieldAttribute) ==> unbox(a, *model.LengthFieldAttribute).TragetField != nil) && (typeis(a, *model.MatchFieldAttribute) ==> unbox(a, *model.MatchFieldAttribute).MatchKeyField != nil) && (typeis(a, *model.ObjectFieldAttribute) ==> (unbox(a, *model.ObjectFieldAttribute).IsIner ==> unbox(a, *model.ObjectFieldAttribute).RefPacket != nil))
-//@ pred fieldOK(f *model.Field) := f != nil && attrOK(f.Attr)
+//@ pred freshObj(x *model.Field) := fresh(x) && allocated(x)
+//@ pred freshAttr(a model.FieldAttribute) := (typeis(a, *model.ObjectFieldAttribute) ==> fresh(unbox(a, *model.ObjectFieldAttribute)) && allocated(unbox(a, *model.ObjectFieldAttribute))) && (typeis(a, *model.MatchFieldAttribute) ==> fresh(unbox(a, *model.MatchFieldAttribute)) && allocated(unbox(a, *model.MatchFieldAttribute))) && (typeis(a, *model.LengthFieldAttribute) ==> fresh(unbox(a, *model.LengthFieldAttribute)) && allocated(unbox(a, *model.LengthFieldAttribute)))
+//@ pred fieldOK(f *model.Field) := f != nil && fresh(f) && allocated(f) && attrOK(f.Attr) && freshAttr(f.Attr)
 //@ pred isField(r interface{}) := typeis(r, *model.Field) && fieldOK(unbox(r, *model.Field))
 
 //@ methods (*PacketDslVisitorImpl)
 //@   requires visitorOK(self)
+//@   modifies-fresh field(self.BinModel, SyntaxErrors)
 
 //@ func NewPacketDslVisitor
 //@   ensures visitorOK(result) && fresh(result) && len(result.BinModel.Packets) == 0
@@ -81,6 +84,7 @@ package parser
 //@   ensures typeis(result, model.MetaData) && (unbox(result, model.MetaData).Attr == nil || model.metaAttr(unbox(result, model.MetaData).Attr))
 
 //@ func (*PacketDslVisitorImpl).VisitPacket
+//@   modifies-fresh object(v.BinModel), object(v.BinModel.MetaDataMap), object(v.BinModel.Options), object(v.BinModel.PacketsMap)
 //@   requires len(v.BinModel.Packets) == 0
 //@   ensures typeis(result, *model.BinaryModel)
 //@   loop 0 invariant model.metaWF(v.BinModel)
